@@ -142,16 +142,22 @@ func c10Scenarios() map[string]c10Scenario {
 		}
 	}
 	return map[string]c10Scenario{
-		"S1": {2, []string{"Validate(Pa,d1)", "Validate(Pb,d1)"}, mk(val(c10Pa, d1), val(c10Pb, d1))},
+		"S1":  {2, []string{"Validate(Pa,d1)", "Validate(Pb,d1)"}, mk(val(c10Pa, d1), val(c10Pb, d1))},
 		"S1r": {2, []string{"Validate(Pb,d1)", "Validate(Pa,d1)"}, mk(val(c10Pb, d1), val(c10Pa, d1))},
-		"S2": {3, []string{"Validate(Pa,d1)", "Validate(Pb,d2)", "CompileProfile(Pc)"}, mk(val(c10Pa, d1), val(c10Pb, d2), comp(c10Pc))},
-		"S3": {3, []string{"ValidateCompiled(q,d1)", "ValidateCompiled(q,d2)", "ValidateCompiled(q,d1)"}, mk(valc(d1), valc(d2), valc(d1))},
-		"S4": {2, []string{"Validate(Pa,d1)", "Validate(Pa,d1)"}, mk(val(c10Pa, d1), val(c10Pa, d1))},
-		"S6": {2, []string{"ValidateWithConfiguration(Pa,d1,confA)", "ValidateWithConfiguration(Pa,d2,confB)"}, mk(valconf(c10Pd, d1, "http://a.org", true), valconf(c10Pd, d2, "http://b.org", false))},
+		"S2":  {3, []string{"Validate(Pa,d1)", "Validate(Pb,d2)", "CompileProfile(Pc)"}, mk(val(c10Pa, d1), val(c10Pb, d2), comp(c10Pc))},
+		"S3":  {3, []string{"ValidateCompiled(q,d1)", "ValidateCompiled(q,d2)", "ValidateCompiled(q,d1)"}, mk(valc(d1), valc(d2), valc(d1))},
+		"S4":  {2, []string{"Validate(Pa,d1)", "Validate(Pa,d1)"}, mk(val(c10Pa, d1), val(c10Pa, d1))},
+		"S6":  {2, []string{"ValidateWithConfiguration(Pa,d1,confA)", "ValidateWithConfiguration(Pa,d2,confB)"}, mk(valconf(c10Pd, d1, "http://a.org", true), valconf(c10Pd, d2, "http://b.org", false))},
 		"S7": {3, []string{"ValidateCompiledWithConfiguration(q,d1,confA)", "…(q,d2,confB)", "…(q,d1,confC)"}, mk(
-			func() CallRes { return ValidateCompiledConf(c10SharedQ2, d1, Epoch2000, config.ReportConfiguration{IncludeReportCreationTime: true, ReportSchemaIri: "urn:a", LexicalSchemaIri: "urn:la"}, nil) },
-			func() CallRes { return ValidateCompiledConf(c10SharedQ2, d2, FixedClock{Epoch2000.T.AddDate(1, 0, 0)}, config.ReportConfiguration{IncludeReportCreationTime: true, ReportSchemaIri: "urn:b", LexicalSchemaIri: "urn:lb"}, nil) },
-			func() CallRes { return ValidateCompiledConf(c10SharedQ2, d1, Epoch2000, config.ReportConfiguration{ReportSchemaIri: "urn:c", LexicalSchemaIri: "urn:lc"}, nil) })},
+			func() CallRes {
+				return ValidateCompiledConf(c10SharedQ2, d1, Epoch2000, config.ReportConfiguration{IncludeReportCreationTime: true, ReportSchemaIri: "urn:a", LexicalSchemaIri: "urn:la"}, nil)
+			},
+			func() CallRes {
+				return ValidateCompiledConf(c10SharedQ2, d2, FixedClock{Epoch2000.T.AddDate(1, 0, 0)}, config.ReportConfiguration{IncludeReportCreationTime: true, ReportSchemaIri: "urn:b", LexicalSchemaIri: "urn:lb"}, nil)
+			},
+			func() CallRes {
+				return ValidateCompiledConf(c10SharedQ2, d1, Epoch2000, config.ReportConfiguration{ReportSchemaIri: "urn:c", LexicalSchemaIri: "urn:lc"}, nil)
+			})},
 		"S5": {2, []string{"CompileProfile(Pa)", "Validate(Pc,d2)"}, mk(comp(c10Pa), val(c10Pc, d2))},
 	}
 }
@@ -159,7 +165,7 @@ func c10Scenarios() map[string]c10Scenario {
 func init() {
 	Register(Meta{
 		ID: "C10", Level: "model_checking", LongCases: true,
-		Rule: "instrumented build (every read/write of a repository package-level variable is a hooked access; x++ / x op= e on such variables split into load, scheduling point, store; sync redirected to shim primitives); harness threads run one at a time under a cooperative scheduler and control changes hands only at hooked accesses of variables the repository writes, and at shim lock operations. Scenarios: S1 Validate(Pa)||Validate(Pb) (Pa draws two path-rule names back to back, Pb is a two-call top-level rego profile), S1r same with thread order swapped, S2 three threads incl. CompileProfile, S3 one compiled query shared by three ValidateCompiled, S4 same profile twice, S5 CompileProfile||Validate. DFS over schedules with iterative preemption bounding (bound stated per scenario); per execution: every thread's (error-ness, report bytes) must equal the result of the same call run alone, no deadlock, and the vector-clock race verdict over all hooked accesses must be empty. A separate free-running pass of the same bodies under the Go race detector covers code the scheduler does not hook (dependencies).",
+		Rule:        "instrumented build (every read/write of a repository package-level variable is a hooked access; x++ / x op= e on such variables split into load, scheduling point, store; sync redirected to shim primitives); harness threads run one at a time under a cooperative scheduler and control changes hands only at hooked accesses of variables the repository writes, and at shim lock operations. Scenarios: S1 Validate(Pa)||Validate(Pb) (Pa draws two path-rule names back to back, Pb is a two-call top-level rego profile), S1r same with thread order swapped, S2 three threads incl. CompileProfile, S3 one compiled query shared by three ValidateCompiled, S4 same profile twice, S5 CompileProfile||Validate. DFS over schedules with iterative preemption bounding (bound stated per scenario); per execution: every thread's (error-ness, report bytes) must equal the result of the same call run alone, no deadlock, and the vector-clock race verdict over all hooked accesses must be empty. A separate free-running pass of the same bodies under the Go race detector covers code the scheduler does not hook (dependencies).",
 		Assumptions: []string{"interleavings inside OPA/json-gold and memory orderings weaker than sequential consistency are not explored by the scheduler; the free-running -race pass is an auxiliary cross-check for those"},
 	}, c10Gen, c10Run)
 }
